@@ -501,6 +501,7 @@ func init() { registerReplay("C14", propC14) }
 const c14Rule = "exhaustive grid {25 gRPC codes incl. out-of-range} x {request ctx cancelled or not} x {4 renderers} x {Server, HandleServices} (forward: HTTP status by documented table + client recovers exact code) " +
 	"and every HTTP status 100..599 x {Invoke, NewStream} x {empty, text body} without X-GRPC-Status (fallback: OK iff 2xx), plus rapid-drawn codes over all of uint32 with drawn messages; " +
 	"and arbitrary unary replies (HTTP status x X-GRPC-Status present/absent/well-formed/garbage x details headers x content types x bodies: encoded messages whole or cut, random bytes, proxy texts) through a replaying RoundTripper (reply mode; also FuzzUnaryReply in the thorough tier): well-formed non-OK header => exactly that code and message, no header => OK iff 2xx, non-2xx never success, derived OK => success iff the body decodes and then the caller's message is the decoding of the body, never a panic; " +
+	"also generated since the seeded rounds: empty status messages, GRPC-Timeout on the request, wrapped status errors, grpc.Header/grpc.Trailer call options on the recovering client; " +
 	"non-trivial = any case except a forward case with code OK; distinct by case hash"
 
 // FuzzUnaryReply: coverage-guided search over unary replies presented to the client.
